@@ -267,6 +267,10 @@ func (fv *FuncVerifier) assumeTyped(st *State, v Term, t types.Type) {
 		if isInteger(t) {
 			st.assume(fv.u.inRange(t, v))
 		}
+	case KRef:
+		// a pointer/map value is nil or refers to an allocated object
+		st.assume(mk(sortBool, "(>= %s 0)", v.S))
+		st.assume(or(eq(v, Term{"0", sortInt}), sel(fv.allocSet(st, v.Sort), v, sortBool)))
 	case KSlice:
 		st.assume(mk(sortBool, "(>= %s 0)", slLen(v).S))
 		// a slice fits in the address space: len * sizeof(elem) <= MaxInt64
@@ -284,7 +288,7 @@ func (fv *FuncVerifier) assumeTyped(st *State, v Term, t types.Type) {
 				f := stt.Field(i)
 				if fi := v.Sort.field(f.Name()); fi != nil {
 					switch fi.Sort.Kind {
-					case KInt, KSlice, KStruct:
+					case KInt, KSlice, KStruct, KRef:
 						fv.assumeTyped(st, mk(fi.Sort, "(%s %s)", fi.Accessor, v.S), f.Type())
 					}
 				}
@@ -566,6 +570,16 @@ func (fv *FuncVerifier) allocSet(st *State, rs *Sort) Term {
 	key := "alloc:" + heapName(rs)
 	if a, ok := st.heaps[key]; ok {
 		return a
+	}
+	if fv.termMode && fv.pureHeaps != nil {
+		as := &Sort{Name: "(Array Int Bool)", Kind: KSMTArray, Elem: sortBool}
+		for _, hf := range *fv.pureHeaps {
+			if hf.name == key {
+				return Term{"hp_" + sanitize(key), as}
+			}
+		}
+		*fv.pureHeaps = append(*fv.pureHeaps, heapFormal{key, as})
+		return Term{"hp_" + sanitize(key), as}
 	}
 	if a, ok := fv.initHeaps[key]; ok {
 		return a
